@@ -43,4 +43,16 @@ LEVEL_TEXT = {
         "note": "No concurrency in this property, hence no scheduler. Trusts the reference listing built from the written pairs. One genuine defect found and fixed (Dump used bare Read).",
         "technique": "deterministic simulation of I/O streams (seeded segmentation + injected stream errors) with a byte-identical round-trip oracle",
     },
+    "C07": {
+        "text": "The real compilers (CDB, RocksDB builder and RocksDB batches) run inside the simulator with their scanner, parser workers, collector and batch writers scheduled by the seeded scheduler, over generated files covering all textual record types, under seeded compiler settings and a seeded input-stream behaviour (short reads, error at an offset). The full dump of the product is compared with the multiset the line-by-line codec emits sequentially; failing inputs must fail for every setting; termination is checked as absence of a quiescent state with unfinished tasks. Big files (several builder buckets) run free on real cores with perturbation hooks in the thorough tier. Evidence, not proof.",
+        "design_ref": "§5.3",
+        "note": "The reference shares the per-line codec with the code under test by design (the property is stated relative to it). Which blocked worker receives a line is the Go runtime's choice, so replay is verdict-level. No seam reaches the RDB that rdb.Compile creates, so RocksDB call errors are not injected here. One genuine defect found and fixed (BatchNumParallel = 0 deadlock).",
+        "technique": "deterministic simulation: seeded scheduling of the compiler's goroutines + seeded input stream faults, full-dump equality against the sequential codec, quiescence = deadlock",
+    },
+    "C15": {
+        "text": "Histories of Add/Del/ExecuteBatch/read over small key and value alphabets on one real RocksDB-backed store, issued by 1-3 scheduled caller tasks that are pre-empted before the write lock and between the read and the write of every read-modify-write, with up to three failing low-level RocksDB calls in the fault population. Sequential histories are compared with a map-of-lists model after every operation over the whole alphabet; concurrent ones are checked with porcupine (failed operation = no-op); one run in eight ends with backup + restore and a full dump comparison. Evidence, not proof.",
+        "design_ref": "§5.9",
+        "note": "Value order inside a key is compared as a multiset except that a single Add must append (the batch path uses an unstable sort). The write lock is probed (TryLock), not modelled, so removing it is visible.",
+        "technique": "deterministic simulation: seeded scheduling inside read-modify-write sections + injected RocksDB call errors, step-by-step model and porcupine linearizability",
+    },
 }
